@@ -3,7 +3,7 @@ CONSTANTS
  FixWaitErr = FALSE
  Reduce = TRUE
  MCShapes = {"art", "artidx"}
- MCPairs = {"tworeg", "reg2dir"}
+ MCPairs = {"tworeg"}
  MCOpts <- MCOptsRefs2
  MCFeats <- MCFeatsCore
  MCInit = "empty"
